@@ -387,7 +387,11 @@ func GenPolicy(t *rapid.T, jitterShare int) cosched.Policy {
 		for i := range p {
 			p[i] = rapid.IntRange(1, 120).Draw(t, "pstep")
 		}
-		return cosched.Policy{Mode: "preempt", Preempt: p, Choices: rapid.SliceOfN(rapid.IntRange(0, 7), 1, 12).Draw(t, "choices")}
+		mode := "preempt"
+		if k > 0 && rapid.IntRange(0, 2).Draw(t, "starve") == 2 {
+			mode = "starve" // the preempted goroutines stall until nothing else can run
+		}
+		return cosched.Policy{Mode: mode, Preempt: p, Choices: rapid.SliceOfN(rapid.IntRange(0, 7), 1, 12).Draw(t, "choices")}
 	default:
 		return cosched.Policy{Mode: "random", Choices: rapid.SliceOfN(rapid.IntRange(0, 7), 4, 48).Draw(t, "choices")}
 	}
